@@ -198,6 +198,9 @@ type Counters struct {
 	MaxExitQueueSpan                    int // largest (max exit epoch - current epoch) over not yet exited validators
 	MaxPendingActivations               int
 	Validators                          int
+	// EpcRepairs: slots after whose processing the live epochs context's sync committees disagreed with the
+	// state (the /repo defect) and were reloaded. PlainRejected: spec-valid blocks the plain StateTransition refused because of it.
+	EpcRepairs, PlainRejected int
 }
 
 func newCounters() Counters {
@@ -218,6 +221,7 @@ func (c *Counters) Summary() string {
 		strings.Join(forks, "+"), c.Upgrades, c.Justified, c.Finalized, c.FinalityAdvances, c.LeakEpochs)
 	fmt.Fprintf(&b, " validators=%d activations=%d ejections=%d exits_begun=%d slashed=%d sync_period_boundaries=%d eth1_adoptions=%d max_exit_queue_span=%d max_pending_activations=%d",
 		c.Validators, c.Activations, c.Ejections, c.ExitsBegun, c.Slashed, c.SyncPeriodBoundaries, c.Eth1Adoptions, c.MaxExitQueueSpan, c.MaxPendingActivations)
+	fmt.Fprintf(&b, " epc_sync_repairs=%d plain_transition_rejected=%d", c.EpcRepairs, c.PlainRejected)
 	keys := make([]string, 0, len(c.Ops))
 	for k := range c.Ops {
 		keys = append(keys, k)
@@ -252,6 +256,8 @@ func (c *Counters) Add(o *Counters) {
 	c.Eth1Adoptions += o.Eth1Adoptions
 	c.HistoricalAccumulations += o.HistoricalAccumulations
 	c.Validators += o.Validators
+	c.EpcRepairs += o.EpcRepairs
+	c.PlainRejected += o.PlainRejected
 	if o.Finalized > c.Finalized {
 		c.Finalized = o.Finalized
 	}
